@@ -314,6 +314,20 @@ func old() {}
 //line x.go:10
 var z = 2
 `},
+	{name: "two-changes-emptied-group", marker: "old", fixed: "f",
+		patch: "@@\nvar a, b expression\n@@\n-a + b\n+a - b\n\n@@\n@@\n-old(2)\n+renewed(2)\n",
+		src: `package p
+
+// f doc e
+func f() int {
+	return old(2) +
+		// about y
+		y
+}
+
+// g doc e
+func g() int { return old(2) } // eol g e
+`},
 	{name: "two-changes", marker: "old", fixed: "gone",
 		patch: "@@\nvar x expression\n@@\n-old(x)\n+mid(x)\n\n@@\n@@\n-func gone() {}\n+var gone = func() {}\n",
 		src: `package p
